@@ -185,7 +185,7 @@ def run(ctx):
             real_decode(Probe, kinds, data)
         except UnicodeDecodeError:
             pass
-        if probe["max"] > 4096 and rng.random() < 0.97:
+        if probe["max"] > 65536 or (probe["max"] > 4096 and rng.random() < 0.9):
             ctx.dist("skipped:huge-zero-pad")
             continue
         if probe["max"] > 4096:
